@@ -124,7 +124,40 @@ fn class_ws(rng: &mut Rng) -> (Vec<(String, String)>, BTreeMap<String, usize>, V
     for _ in 0..nclasses {
         let name = names[rng.below(names.len())];
         let k = rng.below(4);
-        let targs = if k == 0 { String::new() } else { format!("<{}>", (0..k).map(|i| format!("int p{i} = {i}")).collect::<Vec<_>>().join(", ")) };
+        // template parameters of every type, without default or with a default of every shape the
+        // indexer may or may not be able to type (a parameter is a parameter whatever its default)
+        let targs = if k == 0 {
+            String::new()
+        } else {
+            // (type, type-correct defaults); `{j}` stands for an earlier int parameter
+            const SHAPES: [(&str, &[&str]); 7] = [
+                ("int", &["7", "!add(1, 2)", "?", "p{j}", "!if(true, 1, 2)"]),
+                ("string", &["\"s\"", "?", "!strconcat(\"a\", \"b\")"]),
+                ("bit", &["true", "?", "!eq(1, 2)", "p{j}{0}", "!lt(p{j}, 3)"]),
+                ("bits<4>", &["5", "{0, 1, 0, 1}", "?", "p{j}{3...0}"]),
+                ("list<int>", &["[1, 2]", "[]", "?", "!listconcat([1], [2])", "[p{j}]"]),
+                ("dag", &["?"]),
+                ("code", &["[{ c }]", "?"]),
+            ];
+            let mut ints: Vec<usize> = Vec::new();
+            let mut params: Vec<String> = Vec::new();
+            for i in 0..k {
+                let (ty, defaults) = SHAPES[rng.below(SHAPES.len())];
+                let default = if rng.chance(1, 2) {
+                    String::new()
+                } else {
+                    let usable: Vec<&&str> = defaults.iter().filter(|d| !d.contains("{j}") || !ints.is_empty()).collect();
+                    let d = usable[rng.below(usable.len())];
+                    let j = if ints.is_empty() { 0 } else { ints[rng.below(ints.len())] };
+                    format!(" = {}", d.replace("{j}", &j.to_string()))
+                };
+                if ty == "int" {
+                    ints.push(i);
+                }
+                params.push(format!("{ty} p{i}{default}"));
+            }
+            format!("<{}>", params.join(", "))
+        };
         let decl = format!("class {name}{targs};\n");
         if rng.chance(1, 3) {
             inc.push_str(&decl);
@@ -174,7 +207,7 @@ impl Property for C20 {
         "C20"
     }
     fn rule(&self) -> String {
-        "exhaustive over the finite vocabularies: every item Analysis::completion offers in the four contexts (file level `c|`, type position `class Foo<i|`, value position `class Foo<int a = t|`, after `!` with the trigger character) must lex (server's own lexer) to exactly one keyword/type/operator token - never Id or Error -, every file-level keyword must not hit the statement-dispatch error and its minimal statement must parse with zero errors; every operator spelling the lexer accepts after `!` (candidates: all string literals of lexer.rs + the reference operator list) must be offered. Class completion: generated workspaces (1..6 classes with 0..3 template parameters, root + included file, redefinitions) x every parent-class position x 0..3 typed characters: labels = exactly the classes of the workspace, one ${n} placeholder per template parameter. distinct = vocabulary item spelling / digest of class case; non-trivial = every vocabulary item, class cases with >=2 classes".into()
+        "exhaustive over the finite vocabularies: every item Analysis::completion offers in the four contexts (file level `c|`, type position `class Foo<i|`, value position `class Foo<int a = t|`, after `!` with the trigger character) must lex (server's own lexer) to exactly one keyword/type/operator token - never Id or Error -, every file-level keyword must not hit the statement-dispatch error and its minimal statement must parse with zero errors; every operator spelling the lexer accepts after `!` (candidates: all string literals of lexer.rs + the reference operator list) must be offered. Class completion: generated workspaces (1..6 classes with 0..3 template parameters of seven types, each without default or with a type-correct default (literal, ?, operator, an earlier int parameter, a bit or bit range of one); root + included file, redefinitions) x every parent-class position x 0..3 typed characters: labels = exactly the classes of the workspace, one ${n} placeholder per template parameter. distinct = vocabulary item spelling / digest of class case; non-trivial = every vocabulary item, class cases with >=2 classes".into()
     }
     fn families(&self, ctx: &Ctx) -> Vec<Family> {
         vec![
